@@ -12,7 +12,7 @@ RULE = ("metamorphic pairs, image against image (and against the reference assem
         "on '.', branches to outside labels and to .+-k, nesting <= 3, n in 0..40 literal or defined later; (2) linking F1..Fk vs "
         "assembling their concatenation (disjoint names); (3) insert_file of 0-300 random bytes vs the same bytes as .byte data; "
         "(4) 'X .end Y' vs 'X' with arbitrary - also unparseable - text Y in main, linked and included files; (5) a file starting with "
-        ".once included 1-3 times vs included once. Non-trivial: repeat pairs whose copies differ in bytes or whose body has an operand "
+        ".once included 1-3 times (under equivalent spellings of its path and through another included file) vs included once. Non-trivial: repeat pairs whose copies differ in bytes or whose body has an operand "
         "that pdpy11 regroups (hoists) or fixes up; all other pairs with >= 1 affected statement; distinct = distinct pair of texts.")
 ASSUMPTIONS = ["outcome classes are compared as success / failure (+ bytes and base on success)",
                "concatenated files start with an ordinary label so that local-label scopes do not merge"]
@@ -222,19 +222,27 @@ def once_case(draw):
     main = [{"k": "insn", "mn": "nop", "ops": []}]
     main_once = list(main)
     first = True
+    extra = {}
+    spellings = []
     for i in range(m):
         filler = [{"k": "data", "d": "word", "es": [("num", i)]}] * draw(st.integers(0, 2))
-        main += filler + [{"k": "include", "path": "lib/once.mac"}]
-        main_once += filler + ([{"k": "include", "path": "lib/once.mac"}] if first else [])
+        # the same file under equivalent spellings of its path, and through another included file of its own directory
+        sp = draw(st.sampled_from(["lib/once.mac", "lib/once.mac", "./lib/once.mac", "lib/../lib/once.mac", "lib/./once.mac", "lib//once.mac", "via", "via-up"]))
+        spellings.append(sp)
+        if sp.startswith("via"):
+            extra[f"lib/{sp}.mac"] = [{"k": "include", "path": "once.mac" if sp == "via" else "../lib/once.mac"}]
+            sp = f"lib/{sp}.mac"
+        main += filler + [{"k": "include", "path": sp}]
+        main_once += filler + ([{"k": "include", "path": sp}] if first else [])
         first = False
     main.append({"k": "insn", "mn": "halt", "ops": []})
     main_once.append({"k": "insn", "mn": "halt", "ops": []})
     with_once = draw(st.integers(0, 5)) != 0
     if not with_once:
         inc_body = inc_body[1:]
-    a = {"files": {"main.mac": main, "lib/once.mac": inc_body}, "blobs": {}, "mains": ["main.mac"], "charset": "bk"}
-    b = {"files": {"main.mac": main_once if with_once else main, "lib/once.mac": inc_body}, "blobs": {}, "mains": ["main.mac"], "charset": "bk"}
-    return a, b, {"m": m, "with_once": with_once}
+    a = {"files": dict(extra, **{"main.mac": main, "lib/once.mac": inc_body}), "blobs": {}, "mains": ["main.mac"], "charset": "bk"}
+    b = {"files": dict(extra, **{"main.mac": main_once if with_once else main, "lib/once.mac": inc_body}), "blobs": {}, "mains": ["main.mac"], "charset": "bk"}
+    return a, b, {"m": m, "with_once": with_once, "respelled": len(set(spellings)) > 1}
 
 
 def judge(a, b, use_model=True):
@@ -307,7 +315,7 @@ def run_shard(spec, ctx):
         elif sub == "end":
             labels.append("end-in-" + meta["where"])
         elif sub == "once":
-            labels += [f"included-{meta['m']}x", "with-once" if meta["with_once"] else "without-once"]
+            labels += [f"included-{meta['m']}x", "with-once" if meta["with_once"] else "without-once"] + (["once-path-respelled"] if meta.get("respelled") else [])
             nt = meta["m"] >= 2
         ctx.case(key, nt, labels, sample={"structured": progcheck.brief_texts(ta, 400), "flattened": progcheck.brief_texts(tb, 300)} if ctx.evaluations % 90 == 8 else None, evaluations=2)
         if fails:
